@@ -106,7 +106,7 @@ def history(rng, maxn, maxk, length, space_ok=True):
         r = rng.random()
         if r < 0.45:
             qs = ["q.str", "q.len", "q.getlen", "q.pair", "q.sub", "q.alg", "q.alg", "q.dim", "q.deps", "q.deps", "q.indeps",
-                  "q.verts", "q.verts", "q.morphs", "q.isin", "q.isin", "q.seldep", "q.seldep", "q.find", "q.index"]
+                  "q.verts", "q.verts", "q.morphs", "q.isin", "q.isin", "q.seldep", "q.seldep", "q.find", "q.index", "q.gen"]
             if space_ok and n() <= 3:
                 qs.append("q.space")
             q = rng.choice(qs)
